@@ -181,6 +181,20 @@ public:
     macros(S->getBeginLoc(), O);
     if (auto *E = dyn_cast<Expr>(S)) {
       putType(O, E->getType());
+      {
+        QualType QT = E->getType();
+        if (!QT.isNull() && !QT->isPlaceholderType() && QT->isObjectType() && !QT->isIncompleteType() && !QT->isFunctionType() &&
+            !QT->isVariablyModifiedType() && !QT->isDependentType() && !QT->isVoidType())
+          O["sz"] = (int64_t)Ctx.getTypeSizeInChars(QT).getQuantity();
+        if (!QT.isNull() && QT->isPointerType()) {
+          QualType PT = QT->getPointeeType();
+          if (!PT->isPlaceholderType() && PT->isObjectType() && !PT->isIncompleteType() && !PT->isFunctionType() && !PT->isVoidType() &&
+              !PT->isVariablyModifiedType())
+            O["psz"] = (int64_t)Ctx.getTypeSizeInChars(PT).getQuantity();
+        }
+        if (!QT.isNull() && QT->isUnsignedIntegerOrEnumerationType() && !QT->isEnumeralType())
+          O["uns"] = true;
+      }
       if (!E->isValueDependent() && E->getType()->isIntegralOrEnumerationType() &&
           E->isPRValue()) {
         Expr::EvalResult R;
